@@ -58,6 +58,10 @@ def build(r):
     nundef = r.choice([0, 0, 1, 2, min(3, nsym)])         # leading symbols that the GNU table does not hash
     nundef = min(nundef, nsym)
     names = gen_names(r, nsym)
+    # several symbols may bear one name (versioned definitions, an undefined and a defined entry, assembler output)
+    if nsym >= 3 and r.random() < 0.4:
+        for _ in range(r.choice([1, 1, 2, 4])):
+            names[r.randrange(nsym)] = names[r.randrange(nsym)]
     # --- GNU hash: hashed symbols are sorted by bucket
     nb = r.choice([1, 1, 2, 3, 4, 5, 7, 8, 16])
     bloom_size = r.choice([1, 1, 2, 3, 4, 5, 6, 7, 8])
@@ -68,11 +72,22 @@ def build(r):
     order = unh + hashed
     symoffset = 1 + nundef
     # --- .dynstr / .dynsym
+    # a string table need not be deduplicated: a repeated name is stored again (another st_name for the same text) or shared
     strtab = bytearray(b'\0')
     offs = {}
+    sym_off = []
     for nm in order:
+        if nm in offs and r.random() < 0.5:
+            sym_off.append(offs[nm])
+            continue
         offs[nm] = len(strtab)
+        sym_off.append(offs[nm])
         strtab += nm.encode('utf-8') + b'\0'
+    if nundef and r.random() < 0.3:
+        # an unhashed symbol with the empty name, reached through an offset other than 0 (the last NUL of the table)
+        order = list(order)
+        order[0] = ''
+        sym_off[0] = len(strtab) - 1
     syms = [_sym(cls, bo, 0, 0, 0, 0, 0, 0)]
     entries = [['', 0, 0, 0, 0, 0, 0, 0]]       # ground truth of every field: name, value, size, bind, type, visibility, shndx, st_other top bits
     xwords = [0]
@@ -86,7 +101,7 @@ def build(r):
         vis = r.choice([0, 0, 1, 2, 3, 4, 5, 6, 7])        # all three bits of the visibility field
         shndx = 0 if undef else r.choice([1, 1, 2, 0xfff1, 0xfff2, 0xffff, 0xffff])
         loc = r.choice([0, 0, 0, 3, 7])
-        syms.append(_sym(cls, bo, offs[nm], value, size, bind << 4 | typ, loc << 5 | vis, shndx))
+        syms.append(_sym(cls, bo, sym_off[i], value, size, bind << 4 | typ, loc << 5 | vis, shndx))
         entries.append([nm, value, size, bind, typ, vis, shndx, loc])
         xwords.append(r.choice([0x10000 + i, 0xff00 + i, 0x01020304]) if shndx == 0xffff else 0)
     have_xindex = r.random() < 0.7
